@@ -133,6 +133,10 @@ func (f *Track3) unpack(raw []byte) error {
 		return errors.New("invalid track data")
 	}
 
+	// forget what a previous Unpack or SetBytes left behind: components that are
+	// absent from this track must not keep their old values
+	f.FormatCode, f.PrimaryAccountNumber, f.DiscretionaryData = "", "", ""
+
 	matches := track3Regex.FindStringSubmatch(string(raw))
 	for index, val := range matches {
 		value := strings.TrimSpace(val)
